@@ -225,7 +225,8 @@ def trivial(cls):
 CONFIG = Config()
 CONFIG.pid = "C04"
 CONFIG.props_module = "KsiVerif.Props.C04"
-CONFIG.required_theorems = []
+CONFIG.required_theorems = ["rhoA_internal", "never_ok_unless_consistent", "key_tree", "key_ok_only_if", "userpub_tree", "userpub_ok_only_if",
+                             "pubfile_tree", "pubfile_ok_only_if", "calendar_tree", "calendar_ok_only_if", "general_tree", "general_ok_only_if"]
 CONFIG.translators = [tables.gen_templates, tables.gen_hashalgs, tables.gen_policies, tables.gen_crc]
 CONFIG.engines = [Engine("c04", ["exec_c04.c"], "drv_c04", gen, trivial=trivial)]
 CONFIG.rule = ("op lines from one PRNG (VERIF_SEED). hashlib-built signatures without calendar chain / with one and a publication record, an "
@@ -256,5 +257,13 @@ CONFIG.assumptions = [
 CONFIG.design_ref = "DESIGN.md section 4 and 8, C04"
 CONFIG.technique = ("Lean 4 proofs over the generated rule trees for every World + differential check of all five policies with a scripted extender, "
                     "caller-supplied publications files and a throw-away PKI")
-CONFIG.level_text = ("(theorems being added) Kernel-checked for every hash function, signature and World: ...")
+CONFIG.level_text = ("Kernel-checked for every hash function, signature, context and World (every behaviour of extender, publications file, PKI and "
+                     "user): under each of the five policies OK implies the signature is internally Consistent, and — key-based: the authentication "
+                     "record's signature verifies with a listed certificate whose validity window contains the aggregation time; user-publication-based: "
+                     "the signature's publication record equals the user's publication (time and hash) or, extending allowed, the chain fetched for the "
+                     "user's publication time has the user's hash as root, that publication time, the signature's aggregation time and aggregation "
+                     "root as input; publications-file-based: the same with a record of the file (found by time and hash, or the nearest one for the "
+                     "extension); calendar-based: the extender's chain starts from the aggregation root at the aggregation time and has the signature "
+                     "chain's right links or, with a publication record, its root; general: one of the first three. The FAIL / NA classification of "
+                     "the other outcomes is compared case by case (model == implementation, label oracle), not proved.")
 CONFIG.level_note = ("Trusted: Lean kernel + standard axioms; the Anchor model and its differential tie (~1600 verifications quick).")
